@@ -102,6 +102,8 @@ def lackey_pass(tier):
 
 
 def main(tier):
+    from vf.props import c04 as _c04
+    _c04.poly_cases()
     rt = os.path.join(common.VERIF, "trace", "rt.c")
     lres, lsummary = lackey_pass(tier)
 
